@@ -56,8 +56,10 @@ type chanCfg struct {
 	Hist     bool    `json:"publish_with_history"`
 }
 
-func (cc chanCfg) delay() time.Duration { return time.Duration(cc.MaxDelay * float64(time.Millisecond)) }
-func (cc chanCfg) batching() bool      { return cc.MaxSize > 0 || cc.MaxDelay > 0 }
+func (cc chanCfg) delay() time.Duration {
+	return time.Duration(cc.MaxDelay * float64(time.Millisecond))
+}
+func (cc chanCfg) batching() bool { return cc.MaxSize > 0 || cc.MaxDelay > 0 }
 
 // prodRec is one produced push: a Node.Publish call, or the join / leave that a
 // subscribe / unsubscribe / close of another client emits.
@@ -95,6 +97,7 @@ type inc struct {
 	delivered []dItem
 	started   bool
 	ended     bool
+	raceLate  bool // the raced unsubscribe removed the writer only after the publication was added
 }
 
 type dItem struct {
@@ -869,6 +872,9 @@ func runCase(c *kit.Case) {
 				if rec.Raced {
 					s.racedN++
 				} else {
+					// the add went to the old writer (and may have flushed it) while the
+					// unsubscribe was already stamped: this incarnation's end is not modelled
+					in.raceLate = true
 					c.Count("raced_unsubscribe_too_late", 1)
 				}
 			}
@@ -1110,6 +1116,10 @@ func checkChannel(c *kit.Case, s *scenario, o *observer, cc chanCfg, frames []ki
 			c.Count("unsubscribe_windows_hit", 1)
 		}
 
+		if in.raceLate {
+			c.Count("incarnations_not_modelled_race_too_late", 1)
+			continue
+		}
 		if orphanPossible {
 			c.Count("incarnations_not_modelled_after_window", 1)
 			if windowBuffered {
